@@ -260,6 +260,55 @@ def lexer_progress_rule(F, rep):
                 out.add((x, t[3]))
         return out
 
+    # predicates that answer `true` only after the cursor has moved (`while self.consume_comment() { .. }`): in the part of the body that is reachable from the
+    # entry without passing a progress block, the return place is only ever assigned the constant `false`; the method never moves the cursor backwards
+    BOOLADV = set()
+    for n, (b, B) in bodies.items():
+        if B.local_ty(0) != "bool" or n not in NONDECR:
+            continue
+        stop = lp[n] | calls_adv(b)
+        region, work = ({0}, [0]) if 0 not in stop else (set(), [])
+        while work:
+            x = work.pop()
+            for y in mirutil.normal_successors(b["blocks"][x]["t"]):
+                if y not in region and y not in stop:
+                    region.add(y)
+                    work.append(y)
+        ok = bool(stop)
+        for (bi, si, kind, st) in B.defs.get(0, []):
+            if bi not in region and not (bi in stop and kind == "call"):
+                continue
+            if not (kind == "assign" and st[2][0] == "Use" and st[2][1][0] == "K" and len(st[2][1]) > 3 and st[2][1][3] in (0, False)):
+                ok = False
+        if ok:
+            BOOLADV.add(n)
+    rep.analysed["R05.4 predicates that are true only after the cursor moved"] = sorted(x.split("::")[-1] for x in BOOLADV)
+
+    def true_edges(b, B, cs):
+        """edges of the loop taken only when a BOOLADV predicate, called in the loop, answered true"""
+        blocks = b["blocks"]
+        out = set()
+        for x in cs:
+            t = blocks[x]["t"]
+            if t[0] != "switch" or t[1][0] not in ("C", "M") or len(t[1][1]) != 1:
+                continue
+            l = t[1][1][0]
+            for _ in range(3):
+                defs = B.defs.get(l, [])
+                if len(defs) == 1 and defs[0][2] == "assign" and defs[0][3][2][0] == "Use" and defs[0][3][2][1][0] in ("C", "M") and len(defs[0][3][2][1][1]) == 1:
+                    l = defs[0][3][2][1][1][0]
+                else:
+                    break
+            defs = B.defs.get(l, [])
+            if len(defs) != 1 or defs[0][2] != "call" or defs[0][0] not in cs or (defs[0][3]["f"].get("p") or "") not in BOOLADV:
+                continue
+            for val, tgt in t[2]:
+                if val != 0 and tgt in cs:
+                    out.add((x, tgt))
+            if any(val == 0 for val, _ in t[2]) and t[3] in cs:
+                out.add((x, t[3]))
+        return out
+
     nloops = 0
     for n, (b, B) in sorted(bodies.items()):
         prog = lp[n] | calls_adv(b)
@@ -277,7 +326,7 @@ def lexer_progress_rule(F, rep):
             key = "loop:%s#%d" % (short, k)
             k += 1
             rest = [x for x in comp if x not in prog]
-            moved = changed_guard_edges(b, B, cs)
+            moved = changed_guard_edges(b, B, cs) | true_edges(b, B, cs)
             rsucc = {x: [y for y in succ[x] if y in cs and y not in prog and (x, y) not in moved] for x in rest}
             bad = [c for c in _sccs(rest, rsucc) if len(c) > 1 or c[0] in rsucc[c[0]]]
             lines = sorted({st[-1] for x in comp for st in blocks[x]["s"] if isinstance(st[-1], int)})
